@@ -128,6 +128,8 @@ func (sp *SyncCommitteePool) PackAggregate(ctx context.Context, slot common.Slot
 }
 
 func (sp *SyncCommitteePool) Reset(slot common.Slot) {
+	sp.Lock()
+	defer sp.Unlock()
 	if sp.currentSlot == slot+1 {
 		sp.nextMsgs = sp.currentMsgs
 		sp.currentMsgs = sp.prevMsgs
